@@ -76,7 +76,7 @@ Definition rcvchk_generated (st : state) (r : rcv) (rk : key) (g : option (item 
             else if 0 <? zlen (dcsFailMsg (f_mt f) (f_code f) [reason_syscode (f_code f)])
                  then [ICb (it_call it) (CbFailed (reason_of_msg (dcsFailMsg (f_mt f) (f_code f) [reason_syscode (f_code f)])))]
                  else []
-          else []) ++ [IRcvEnq r rk])
+          else []) ++ [IRcvEnq r rk (it_dest it, it_remap it)])
     | None => (st, [])
     end.
 
@@ -149,7 +149,7 @@ Definition enq_of (st : state) (l : label) : option (rcv * bool) :=
   match l with
   | LStep t room =>
       match lookup tid_eqb t (threads st) with
-      | Some (IRcvEnq r _ :: _) => Some (r, room)
+      | Some (IRcvEnq r _ _ :: _) => Some (r, room)
       | _ => None
       end
   | _ => None
@@ -209,7 +209,7 @@ Definition committed (X : key) (j : instr) : bool :=
   match j with
   | INcChk _ f ft own (Some (it, s)) =>
       key_eqb own X && (fin_of f || strict) && (ft =? c_responseFrame) && negb (it_tomb it || (fin_of f && negb s))
-  | IRcvGet r | IRcvChk r _ _ | IRcvEnq r _ => rcv_commit X r
+  | IRcvGet r | IRcvChk r _ _ | IRcvEnq r _ _ => rcv_commit X r
   | _ => false
   end.
 
@@ -243,7 +243,7 @@ Definition dead (st : state) (X : key) : Prop := dead_at (items st) (timers st) 
 Definition own_of (j : instr) : option key :=
   match j with
   | INcChk _ _ _ own (Some _) => Some own
-  | IRcvGet r | IRcvChk r _ _ | IRcvEnq r _ => Some (r_own r)
+  | IRcvGet r | IRcvChk r _ _ | IRcvEnq r _ _ => Some (r_own r)
   | _ => None
   end.
 Definition key_bound (cs : list (Z * conn)) (o : key) : Prop :=
@@ -332,6 +332,13 @@ Proof.
     destruct Hd as [Hd|[Hs Hd]]; [left; exact Hd|right; split; [exact Hs|]]. apply tdead_release. exact Hd.
 Qed.
 
+Lemma delete_call_dead : forall st t lk st' g X, items_delete_call st t lk = (st', g) -> dead st X -> dead st' X.
+Proof.
+  intros st t lk st' g X H Hd. destruct (items_delete_call_cases st t lk) as [E|[E _]]; rewrite E in H.
+  - eapply delete_dead; eassumption.
+  - inversion H. subst. exact Hd.
+Qed.
+
 Lemma delete_tomb_dead : forall st t X, dead st X -> dead (items_delete_tomb st t) X.
 Proof.
   intros st t X Hd. unfold items_delete_tomb.
@@ -398,8 +405,8 @@ Proof.
     destruct (items_entomb cf st t) as [st' g] eqn:E.
     assert (st1 = st') by (destruct g as [[it [|]]|]; inversion H; reflexivity). subst. eapply entomb_dead; eassumption.
   - (* IDelete *)
-    destruct (items_delete st t) as [st' g] eqn:E.
-    assert (st1 = st') by (destruct g as [[it [|]]|]; inversion H; reflexivity). subst. eapply delete_dead; eassumption.
+    destruct (items_delete_call st t lk) as [st' g] eqn:E.
+    assert (st1 = st') by (destruct g as [[it [|]]|]; inversion H; reflexivity). subst. eapply delete_call_dead; eassumption.
   - (* ITimerRun *)
     destruct (zlookup tm (timers st)) as [x|] eqn:El; [|inversion H; subst; exact Hd].
     destruct (tm_released x) eqn:Er; inversion H; subst; [exact Hd|].
@@ -491,7 +498,7 @@ Proof.
     apply in_app_or in Hj. destruct Hj as [Hj|[<-|[]]]; [|exact I].
     destruct (match s with FromFail _ => it_orig it | FromTimeout o => o end); [|contradiction].
     unfold orig_tail in Hj. destruct s; in_cases Hj; exact I.
-  - destruct (items_delete st t) as [st' g]. destruct g as [[it [|]]|]; inversion H; subst; try contradiction.
+  - destruct (items_delete_call st t lk) as [st' g]. destruct g as [[it [|]]|]; inversion H; subst; try contradiction.
     in_cases Hj; exact I.
   - destruct (zlookup tm (timers st)) as [x0|]; [|inversion H; subst; contradiction].
     destruct (tm_released x0); inversion H; subst; try contradiction. destruct Hj as [<-|[]]. exact I.
@@ -582,7 +589,7 @@ Proof.
     apply in_app_or in Hj. destruct Hj as [Hj|[<-|[]]]; [|reflexivity].
     destruct (match s with FromFail _ => it_orig it | FromTimeout o => o end); [|contradiction].
     unfold orig_tail in Hj. destruct s; in_cases Hj; reflexivity.
-  - destruct (items_delete st t) as [st' g]. destruct g as [[it [|]]|]; inversion H; subst; try contradiction.
+  - destruct (items_delete_call st t lk) as [st' g]. destruct g as [[it [|]]|]; inversion H; subst; try contradiction.
     in_cases Hj; reflexivity.
   - destruct (zlookup tm (timers st)) as [x0|]; [|inversion H; subst; contradiction].
     destruct (tm_released x0); inversion H; subst; try contradiction. destruct Hj as [<-|[]]. reflexivity.
@@ -934,6 +941,13 @@ Proof.
   inversion H. subst. apply release_as. exact HA.
 Qed.
 
+Lemma delete_call_as : forall st t lk st' g, AS st -> items_delete_call st t lk = (st', g) -> AS st'.
+Proof.
+  intros st t lk st' g HA H. destruct (items_delete_call_cases st t lk) as [E|[E _]]; rewrite E in H.
+  - eapply delete_as; eassumption.
+  - inversion H. subst. exact HA.
+Qed.
+
 Lemma delete_tomb_as : forall st t, AS st -> AS (items_delete_tomb st t).
 Proof.
   intros st t HA. unfold items_delete_tomb.
@@ -968,8 +982,8 @@ Proof.
     assert (st1 = st') by (destruct g as [[it [|]]|]; inversion H; reflexivity). subst. eapply get_as; eassumption.
   - destruct (items_entomb cf st t) as [st' g] eqn:E.
     assert (st1 = st') by (destruct g as [[it [|]]|]; inversion H; reflexivity). subst. eapply entomb_as; eassumption.
-  - destruct (items_delete st t) as [st' g] eqn:E.
-    assert (st1 = st') by (destruct g as [[it [|]]|]; inversion H; reflexivity). subst. eapply delete_as; eassumption.
+  - destruct (items_delete_call st t lk) as [st' g] eqn:E.
+    assert (st1 = st') by (destruct g as [[it [|]]|]; inversion H; reflexivity). subst. eapply delete_call_as; eassumption.
   - destruct (zlookup tm (timers st)) as [x|] eqn:El; [|inversion H; subst; exact HA].
     destruct (tm_released x) eqn:Er; inversion H; subst; [exact HA|].
     unfold AS. cbn [set_timers timers]. apply as_insert; [exact HA|]. cbn.
@@ -1005,19 +1019,19 @@ Proof.
   destruct (is_resp r && (fin_of (r_f r) || strict) && mem_key (r_own r) D) eqn:E; [|reflexivity]. exfalso.
   apply andb_true_iff in E. destruct E as [E Hm]. apply andb_true_iff in E. destruct E as [Hr Hf].
   unfold mem_key in Hm. apply existsb_exists in Hm. destruct Hm as (X&HX&Hk).
-  pose proof (g_com _ _ HG X th _ (IRcvEnq r rk) HX (lookup_in tid_eqb tid_eqb_ok _ _ _ El) (or_introl eq_refl)) as Hc.
+  pose proof (g_com _ _ HG X th _ (IRcvEnq r rk lk) HX (lookup_in tid_eqb tid_eqb_ok _ _ _ El) (or_introl eq_refl)) as Hc.
   cbn [committed] in Hc. unfold rcv_commit in Hc. rewrite Hk, Hf, Hr in Hc. discriminate.
 Qed.
 
-Lemma gap_free_from : forall cf ls st D st', Inv st -> TInv st -> Shape st -> WInv st ->
+Lemma gap_free_from : forall cf ls st D st', Inv st -> TInv st -> LInv st -> Shape st -> WInv st ->
   (strict = true -> AS st /\ Forall nofire ls) -> GInv st D ->
   run_fresh cf st ls = Some st' -> gap_free cf st D ls.
 Proof.
-  intros cf ls. induction ls as [|l rest IH]; intros st D st' HI HT HS HW HA HG H; cbn [gap_free]; [exact I|].
+  intros cf ls. induction ls as [|l rest IH]; intros st D st' HI HT HL HS HW HA HG H; cbn [gap_free]; [exact I|].
   cbn [run_fresh] in H. destruct (fresh_label st l) eqn:Ef; [|discriminate].
   destruct (step cf st l) as [st1|] eqn:Es; [|discriminate].
   split; [apply gap_at_false; exact HG|].
-  eapply IH; [eapply step_inv; eassumption|eapply step_tinv; eassumption|eapply step_shape; eassumption|
+  eapply IH; [eapply step_inv; eassumption|eapply step_tinv; eassumption|eapply LInv_step; eassumption|eapply step_shape; eassumption|
               eapply step_winv; eassumption| |eapply step_ginv; try eassumption; intro Hs; apply (HA Hs)|exact H].
   intro Hs. destruct (HA Hs) as [HAs Hnf]. inversion Hnf; subst. split; [eapply step_as; eassumption|assumption].
 Qed.
@@ -1050,7 +1064,7 @@ End Gap.
    send queue after a response frame of that call was dropped there. *)
 Theorem relay_no_gap : forall cf ls st, run_fresh cf init ls = Some st -> gap_free false cf init [] ls.
 Proof.
-  intros cf ls st H. eapply gap_free_from; [apply Inv_init|apply TInv_init|apply Shape_init|apply WInv_init| |apply GInv_init|exact H].
+  intros cf ls st H. eapply gap_free_from; [apply Inv_init|apply TInv_init|apply LInv_init|apply Shape_init|apply WInv_init| |apply GInv_init|exact H].
   intro Hx. discriminate.
 Qed.
 
@@ -1058,7 +1072,7 @@ Qed.
 Theorem relay_no_frame_after_drop : forall cf ls st, run_fresh cf init ls = Some st -> Forall nofire ls ->
   gap_free true cf init [] ls.
 Proof.
-  intros cf ls st H Hn. eapply gap_free_from; [apply Inv_init|apply TInv_init|apply Shape_init|apply WInv_init| |apply GInv_init|exact H].
+  intros cf ls st H Hn. eapply gap_free_from; [apply Inv_init|apply TInv_init|apply LInv_init|apply Shape_init|apply WInv_init| |apply GInv_init|exact H].
   intros _. split; [apply AS_init|exact Hn].
 Qed.
 
